@@ -43,9 +43,9 @@ func init() {
 	ct := mon.Kind(p, "corrupt", c17JudgeText)
 	p.Run = func(c *mon.Ctx) {
 		prefixes := []string{bscript.PrefixScript, bscript.PrefixTemplate}
-		lens := []int{1, 25, 76}
+		lens := []int{0, 1, 25, 76} // 0: the empty payload is a payload
 		if c.Thorough {
-			lens = []int{1, 2, 25, 76, 300, 1000}
+			lens = []int{0, 1, 2, 25, 76, 300, 1000}
 		}
 		// What a child process calls FIRST differs from shard to shard (lazily
 		// initialised state must not depend on which entry point came first).
